@@ -228,14 +228,17 @@ def _find_cycle(view):
 STEP_MOVES = {
     (PENDING, RUNNING), (PENDING, CHECKING),
     (CHECKING, SUCCEEDED), (CHECKING, PENDING),
+    (CHECKING, FAILED),  # an input was found changed on disk while the step was being checked
     (RUNNING, SUCCEEDED), (RUNNING, FAILED), (RUNNING, PENDING),
     (SUCCEEDED, PENDING), (FAILED, PENDING),
 }
 
 
-def moves(prev, cur, boundary=False):
+def moves(prev, cur, boundary=False, in_flight=()):
     """Illegal moves of nodes present in both states. `boundary`: prev is the state a previous
-    director left behind (restart), where interrupted steps are reset."""
+    director left behind (restart), where interrupted steps are reset. `in_flight`: nodes with a
+    job that was dispatched earlier and has not been retired yet: such a job completes the step
+    whatever was declared about it in the meantime (Step.mark_completed documents this)."""
     out = []
     for i, s in cur.steps.items():
         p = prev.steps.get(i)
@@ -250,6 +253,10 @@ def moves(prev, cur, boundary=False):
         if pair in STEP_MOVES:
             continue
         if boundary and pair in {(RUNNING, FAILED), (CHECKING, PENDING), (RUNNING, PENDING)}:
+            continue
+        if i in in_flight and pair[1] in (SUCCEEDED, FAILED, PENDING):
+            out.append(("observation", f"completed-by-job-of-earlier-declaration:"
+                                       f"{STEP_NAMES.get(pair[0])}>{STEP_NAMES.get(pair[1])}"))
             continue
         out.append((f"step-move/{STEP_NAMES.get(pair[0])}-to-{STEP_NAMES.get(pair[1])}",
                     f"{cur.label(i)}"))
